@@ -189,7 +189,7 @@ def rule_scheme(repo, rep):
     return
   key = 'mmc._BaseMMC._fit_full:'
   got = set(roles_.values())
-  miss = [r_ for r_ in ('pos_pairs', 'neg_pairs', 'pos_diff', 'M', 'alpha')
+  miss = [r_ for r_ in ('pos_pairs', 'neg_pairs', 'M', 'alpha')
           if r_ not in got]
   if miss:
     # a selection with the wrong label is a known-different form
@@ -228,9 +228,27 @@ def rule_scheme(repo, rep):
   slots = sorted(str(slot(x)) for x in (pd[0].left, pd[0].right)) \
       if pd and isinstance(pd[0], ast.BinOp) else []
   ok_d = slots == ['0', '1'] and isinstance(pd[0].op, ast.Sub)
-  rep.add(R, key + 'pos_diff', 'derived' if ok_d else 'unknown', site(f),
-          '' if ok_d else 'similar-pair differences %s not recognised'
-          % (ast.unparse(pd[0]) if pd else None))
+  if pd:
+    rep.add(R, key + 'pos_diff', 'derived' if ok_d else 'unknown', site(f),
+            '' if ok_d else 'similar-pair differences %s not recognised'
+            % ast.unparse(pd[0]))
+  # _fS1(pairs, A) itself is the sum of outer products of the differences
+  # of its pairs (certified here on its body), so w may be taken from it
+  g1 = repo.get_func('mmc._BaseMMC._fS1')
+  fs1_ok = False
+  gb = [s_ for s_ in g1.node.body if not (isinstance(s_, ast.Expr) and
+                                         isinstance(s_.value, ast.Constant))]
+  if len(gb) == 1 and isinstance(gb[0], ast.Return):
+    gb = [gb[0]]
+  rt_ = [s_ for s_ in gb if isinstance(s_, ast.Return)]
+  if rt_:
+    un = astutil.unfold(rt_[0].value, g1.node.body, rt_[0])
+    pn = g1.params()[1]
+    fs1_ok = ast.unparse(un).replace(' ', '') in (
+        "np.einsum('ij,ik->jk',%s[:,0,:]-%s[:,1,:],%s[:,0,:]-%s[:,1,:])"
+        % ((pn,) * 4),
+        "np.einsum('ij,ik->jk',%s[:,1,:]-%s[:,0,:],%s[:,1,:]-%s[:,0,:])"
+        % ((pn,) * 4))
   wd = [v for (n, v) in guards.assignments(f.node, 'w') if v is not None]
   w_ok = None
   if wd:
@@ -241,6 +259,14 @@ def rule_scheme(repo, rep):
       D = NC.atom('D')
       ev = NCEval({'pos_diff': D}, {}, canon_of)
       v = ev.ev(inner)
+      STOP = ('pos_pairs', 'neg_pairs', 'A', 'A_old', 'pairs', 'y')
+      wst = [n_ for (n_, v_) in guards.assignments(f.node, 'w')
+             if v_ is not None][0]
+      inner_u = astutil.unfold(inner, f.node.body, wst, stop=STOP)
+      if v is None and fs1_ok and isinstance(inner_u, ast.Call) and \
+              ast.unparse(inner_u.func) == 'self._fS1' and \
+              inner_u.args and ast.unparse(inner_u.args[0]) == 'pos_pairs':
+        v = D.T().mul(D)
       if v is None and isinstance(inner, ast.Call) and \
               canon_of(inner.func) == canon('numpy.einsum') and \
               len(inner.args) == 3 and \
@@ -365,6 +391,16 @@ def rule_scheme(repo, rep):
   for n in inl:
     un = astutil.unfold(n.value, astutil.parents(f.node).get(n).body, n)
     txt = ast.unparse(un)
+    # the similarity gradient does not depend on A: it may be hoisted
+    import re as _re
+    if 'self._fS1' not in txt:
+      # a name defined before the loop: unfold it from the function body
+      un2 = astutil.unfold(un, f.node.body, f.node.body[-1],
+                           stop=('pos_pairs', 'neg_pairs', 'A', 'A_old',
+                                 'pairs', 'y'))
+      txt = ast.unparse(un2)
+    txt = _re.sub(r'self\._fS1\(pos_pairs, \w+\)', 'self._fS1(pos_pairs, A)',
+                  txt)
     ok = txt == 'self._grad_projection(self._fD1(neg_pairs, A), ' \
         'self._fS1(pos_pairs, A))'
     bad = txt == 'self._grad_projection(self._fS1(pos_pairs, A), ' \
